@@ -227,7 +227,7 @@ def tcp_scenarios(ctx, n):
 
 
 def run(ctx):
-    tcp_fail, tcp_cov = tcp_scenarios(ctx, 18 if ctx.tier == "quick" else 400)
+    tcp_fail, tcp_cov = T.stable(lambda: tcp_scenarios(ctx, 18 if ctx.tier == "quick" else 400))
     orig_finish = C.Verdict.finish
 
     def finish(self):
